@@ -210,7 +210,7 @@ class Walker:
             return
         if r.kind == "plain" and r.status == 200:
             if not meta.get("valid", True):
-                self.v("accepted-invalid", li, si, f"invalid payload accepted: {meta['payload']}")
+                self.v("accepted-invalid", li, si, f"invalid payload accepted: {meta['payload']}", vclass=meta.get("vclass"), feat=meta.get("vclass"))
                 # it is in the store now; track it so that later reads are not reported as foreign
             ev = Ev(meta["k"], meta["type"], meta["ctx"], meta["payload"], ts, li, si,
                     len(self.model.events), meta.get("stored"))
@@ -760,3 +760,14 @@ def on_seq(self, li, si, st, meta, issue, r):
 
 
 Walker.on_seq = on_seq
+
+
+def on_define_fail(self, li, si, st, meta, issue, r):
+    if r is None:
+        return
+    if r.ok():
+        self.v("define-error-changed-schema", li, si, f"{st.get('text')}: DEFINE of an existing type succeeded")
+    self.stats["cmd:define_rejected"] += 1
+
+
+Walker.on_define_fail = on_define_fail
